@@ -104,6 +104,13 @@ static void det_len(long L)
         randombytes_buf_deterministic(a + 16, len, seed); ref_chacha20_ietf_xor(b, NULL, len, seed, nonce, 0); n_eval++; if (len) n_nontriv++;
         if (memcmp(a + 16, b, len) || a[15] != 0xA5 || a[16 + len] != 0xA5) { snprintf(key, sizeof key, "randombytes_buf_deterministic/len=%zu/seed=%s", len, vf_patname[p]); vf_fail(key, "differs from ChaCha20-IETF(seed, 'LibsodiumDRG', counter 0)"); }
     }
+    /* the seed lying inside the output buffer (in-place ratchet: new seed || output = G(seed)) must give the same stream as a disjoint seed */
+    if (len >= 32 && (len <= 200 || len % 64 <= 1)) {
+        size_t off, offs[4] = { 0, 1, len / 2 > len - 32 ? len - 32 : len / 2, len - 32 }; int k;
+        for (k = 0; k < 4; k++) { off = offs[k]; if (off + 32 > len) continue; vf_pat(seed, 32, PAT_R1, 602 + k); ref_chacha20_ietf_xor(b, NULL, len, seed, nonce, 0);
+            memset(a, 0xA5, len + 32); memcpy(a + 16 + off, seed, 32); randombytes_buf_deterministic(a + 16, len, a + 16 + off); n_eval++; n_nontriv++;
+            if (memcmp(a + 16, b, len) || a[15] != 0xA5 || a[16 + len] != 0xA5) { snprintf(key, sizeof key, "randombytes_buf_deterministic/seed-inside-output/len=%zu/offset=%zu", len, off); vf_fail(key, "differs from ChaCha20-IETF(seed, 'LibsodiumDRG', counter 0) of the seed passed in"); } }
+    }
     free(a); free(b);
 }
 static void misuse_exit(void) { _exit(77); }
@@ -242,6 +249,32 @@ static void close_check(void)
     if (randombytes_uniform(10) != 7 || draw_pos != 1) vf_fail("randombytes_close/then-uniform", "bounded draw after close did not come from the installed source");
 }
 
+/* a random source that supplies only the required members (random, buf): every optional member NULL (randombytes.h: stir, uniform, close are optional) */
+static const char *min_name(void) { return "verif-minimal"; }
+static uint32_t min_random(void) { return 0x01020304u; }
+static void min_buf(void * const b, const size_t n) { memset(b, 0x5a, n); }
+static struct randombytes_implementation min_impl = { min_name, min_random, NULL, NULL, min_buf, NULL };
+static void minimal_source_check(void)
+{
+    pid_t pid; int st; fflush(stdout); pid = fork();
+    if (pid == 0) {
+        unsigned char k[32]; int bad = 0, i;
+        if (randombytes_set_implementation(&min_impl) != 0) _exit(10);
+        randombytes_stir();                                         /* no stir member: must be a no-op */
+        if (randombytes_random() != 0x01020304u) bad |= 1;
+        if (randombytes_uniform(1000) != 0x01020304u % 1000) bad |= 2;
+        randombytes_buf(k, 32); for (i = 0; i < 32; i++) if (k[i] != 0x5a) bad |= 4;
+        crypto_secretbox_keygen(k); for (i = 0; i < 32; i++) if (k[i] != 0x5a) bad |= 8;
+        (void) randombytes_close();                                 /* no close member: must not crash (return value unspecified) */
+        randombytes_stir(); randombytes_buf(k, 32); for (i = 0; i < 32; i++) if (k[i] != 0x5a) bad |= 16;
+        if (strcmp(randombytes_implementation_name(), "verif-minimal")) bad |= 32;
+        _exit(bad ? 64 + (bad & 63) : 0);
+    }
+    waitpid(pid, &st, 0); n_eval++; n_nontriv++;
+    if (!(WIFEXITED(st) && WEXITSTATUS(st) == 0)) vf_fail("random-source/minimal-implementation", "a source with only the required members (stir, uniform, close NULL) was not served correctly (status %#x)", st);
+    /* the same before sodium_init has ever run (set_implementation + sodium_init, as documented for custom sources) is exercised by the forked child of main() below */
+}
+
 /* randombytes_random / uniform draw exactly one 32-bit value each from the source */
 static void draws_check(void)
 {
@@ -262,6 +295,9 @@ int main(void)
     vf_init_seed();
     MAXREJ = vf_tier_thorough() ? 6 : 4;
     alarm(1500);
+    { pid_t pid; int st; fflush(stdout); pid = fork();      /* custom minimal source installed BEFORE sodium_init (the documented order): initialisation must cope with the NULL optional members */
+      if (pid == 0) { unsigned char k[8]; struct randombytes_implementation *cur = NULL; (void) cur; if (randombytes_set_implementation(&min_impl) != 0) _exit(10); if (sodium_init() != 0) _exit(12); randombytes_stir(); randombytes_buf(k, 8); _exit(k[0] == 0x5a ? 0 : 11); }
+      waitpid(pid, &st, 0); if (!(WIFEXITED(st) && WEXITSTATUS(st) == 0)) vf_fail("random-source/minimal-implementation-fresh", "status %#x", st); }
     randombytes_set_implementation(&s_impl);
     if (sodium_init() < 0) return 2;
     if (os_rng_calls) vf_fail("sodium_init/os-rng", "sodium_init consulted the OS generator %lu times although a custom source was installed first", os_rng_calls);
@@ -277,7 +313,7 @@ int main(void)
     vf_parallel(16, 0, nub, uniform_bound, fin);
     vf_parallel(16, 0, vf_tier_thorough() ? 2305 : 1101, det_len, fin);
     vf_parallel(16, 0, NKEYGEN + ngens, do_gen, fin);
-    draws_check(); det_limit(); close_check(); fin();
+    draws_check(); det_limit(); close_check(); minimal_source_check(); fin();
     vf_sample("randombytes_uniform(10): scripts over {0,1,4,5,6,7,9,10,11,2^31,2^32-2,2^32-1} with <= 3 rejected draws; e.g. draws (5, 6) -> 5 rejected (< 2^32 mod 10 = 6), result 6 after 2 draws");
     vf_sample("randombytes_uniform(4294967295): draws (0, 1) -> min = 1: 0 rejected, 1 accepted -> 1");
     vf_sample("crypto_core_ed25519_scalar_random: served candidates L, 0, ff..ff, (L-1 | top bits) -> output L-1 after 128 bytes");
